@@ -49,6 +49,21 @@ func symxSweepNow(b *symxBroker) {
 	rt.Quiesce()
 }
 
+// symxSweepEarly: the writer's one-second ticker fires 2.8 s after the packets were sent. The
+// timeout list files deadlines under their rounded second, so with the clock 300 ms into its
+// second this sweep falls inside the deadline's bucket but before the exact deadline.
+func symxSweepEarly(b *symxBroker) {
+	if rt.Native() {
+		b.acks.Expire(time.Now().Add(2800 * time.Millisecond))
+		rt.Quiesce()
+		return
+	}
+	symxClockMs += 2800
+	symxTick()
+	b.expire(1600000000+symxClockMs/1000, (symxClockMs%1000)*1000000)
+	rt.Quiesce()
+}
+
 // symxC03: outbound QoS 1/2 deliveries under a symbolic client script: acknowledge, answer with
 // the wrong packet type or an unknown identifier, stay silent across a deadline, or end the
 // session. Unacknowledged packets are re-sent with the same identifier at every expired
@@ -57,6 +72,10 @@ func symxC03() {
 	n := rt.Param("messages", 1)
 	steps := rt.Param("steps", 2)
 	nsess := rt.Param("sessions", 1)
+	early := rt.Param("early", 0) == 1
+	if early && !rt.Native() {
+		symxClockMs += 300 // deadlines fall 300 ms into their second
+	}
 	b := symxNewBroker(1, 1)
 	p := b.start(nil)
 	names := []string{"s", "t"}
@@ -114,7 +133,11 @@ func symxC03() {
 	registeredS := [2]bool{true, true}
 	for step := 0; step < steps; step++ {
 		m := int(rt.Int("target", 0, int64(n-1)))
-		action := rt.Int("action", 0, 4)
+		maxAction := int64(4)
+		if early {
+			maxAction = 5
+		}
+		action := rt.Int("action", 0, maxAction)
 		s, c := ss[fl[m].sess], cs[fl[m].sess]
 		registered := registeredS[fl[m].sess]
 		symxTick()
@@ -165,6 +188,23 @@ func symxC03() {
 		case 4: // the session ends
 			b.local.Delete(names[fl[m].sess])
 			registeredS[fl[m].sess] = false
+		case 5: // a ticker sweep inside the deadline's second but before the exact deadline:
+			// "honoured to the second" lets it count as the expiry or not, but whatever it
+			// does, the delivery must still be retransmitted at the next passed deadline
+			symxSweepEarly(b)
+			for k := range fl {
+				if !registeredS[fl[k].sess] || fl[k].phase == 2 {
+					continue
+				}
+				pubs, rels := symxCountOut(cs[fl[k].sess], fl[k].id)
+				if fl[k].phase == 0 {
+					rt.Assert(pubs == fl[k].pubs || pubs == fl[k].pubs+1, "C03.early_sweep_resends_at_most_once")
+					fl[k].pubs = pubs
+				} else {
+					rt.Assert(rels == fl[k].rels || rels == fl[k].rels+1, "C03.early_sweep_resends_at_most_once")
+					fl[k].rels = rels
+				}
+			}
 		}
 		rt.Quiesce()
 		for k := range fl {
